@@ -65,9 +65,16 @@ fn exec_transcript(file: &File, tree: &Tree, source: &str, globals: &BTreeMap<St
     globals.remove(DEBUG_KEY);
     let globals = &globals;
     let vars: Variables = exec::make_globals(globals, &|_| None);
+    exec_transcript_with(file, tree, source, &vars, debug, functions, lazy)
+}
+
+/// the same with the caller's variable set as it is (e.g. one that has a history of additions and
+/// removals behind it)
+fn exec_transcript_with(file: &File, tree: &Tree, source: &str, vars: &Variables, debug: bool, functions: &Functions, lazy: bool) -> String {
+    let ti = TreeInfo::new(tree);
     let before: BTreeMap<String, String> = vars.iter().map(|(k, v)| (k.as_str().to_string(), format!("{:?}", v))).collect();
     let r = catch(|| {
-        let mut config = ExecutionConfig::new(functions, &vars).lazy(lazy);
+        let mut config = ExecutionConfig::new(functions, vars).lazy(lazy);
         if debug {
             config = config.debug_attributes(Identifier::from("dbg_l"), Identifier::from("dbg_v"), Identifier::from("dbg_m"));
         }
@@ -674,6 +681,38 @@ impl Prop for C12 {
                         return;
                     }
                 }
+                // ... and one long-lived variable set that is brought from one set of globals to
+                // the next by removing and adding single variables
+                let mut long = Variables::new();
+                let mut present: Vec<String> = Vec::new();
+                for (step, g) in order.iter().enumerate() {
+                    let debug = g.contains_key(DEBUG_KEY);
+                    // oldest first: what was added first is removed first
+                    for k in present.clone() {
+                        if !g.contains_key(&k) || step % 2 == 1 {
+                            long.remove(&Identifier::from(k.as_str()));
+                            present.retain(|x| x != &k);
+                        }
+                    }
+                    for (k, v) in g.iter() {
+                        if k != DEBUG_KEY && !present.contains(k) {
+                            if let Some(val) = exec::to_value(v, &|_| None) {
+                                let _ = long.add(Identifier::from(k.as_str()), val);
+                                present.push(k.clone());
+                            }
+                        }
+                    }
+                    let got = exec_transcript_with(&file, &trees[0], &c.sources[0], &long, debug, &functions, lazy);
+                    let expect = exec_transcript(&file, &trees[0], &c.sources[0], g, &functions, lazy);
+                    out.evals(2);
+                    if got != expect {
+                        let mut cc = cj();
+                        cc["globals_of_this_execution"] = json!(g.iter().map(|(k, v)| (k.clone(), v.to_json())).collect::<serde_json::Map<_, _>>());
+                        out.violation(&format!("C12:long-lived-variables-differ:{}", mode), &format!("execution #{} with a variable set that was brought to these globals by removals and additions differs from a run with a fresh set holding the same globals: {:?} vs {:?}", step + 1, crate::util::trunc(&got, 300), crate::util::trunc(&expect, 300)), cc);
+                        return;
+                    }
+                }
+                out.feat("long_lived_variable_set_with_removals");
                 out.feat("varying_globals_sequence");
                 if !defaulted.is_empty() {
                     out.feat("varying_globals_with_a_defaulted_global");
